@@ -98,6 +98,45 @@ def h_unit_window(op, begin, end):
     return body
 
 
+def h_crosshair(fn, timeout=150):
+    """Second engine: CrossHair (its own z3-backed symbolic execution of the SAME real operation classes) on one
+    unit-level contract of vf/xhair/contracts.py.  'Confirmed over all paths' corroborates; a counterexample is re-run
+    concretely and reported as a violation only if the contract function really returns False; 'Not confirmed' /
+    'Unable to meet precondition' make no claim (recorded in the observation, never counted as success)."""
+    def body(env):
+        import inspect
+        import os
+        import re
+        import subprocess
+        import sys
+        A = env.A
+        env.real('dummy')
+        from ..xhair import contracts
+        f = getattr(contracts, fn)
+        line = inspect.getsourcelines(f)[1]
+        path = contracts.__file__
+        e = dict(os.environ)
+        e['PYTHONPATH'] = os.pathsep.join(sys.path)
+        p = subprocess.run([sys.executable, '-m', 'crosshair', 'check', '--report_all', '--per_condition_timeout', str(timeout),
+                            '%s:%d' % (path, line + 1)], capture_output=True, text=True, env=e, timeout=timeout * 3)
+        out = p.stdout + p.stderr
+        if 'Confirmed over all paths' in out:
+            env.observe('crosshair', 1)
+            return [('crosshair-confirmed', A.true)]
+        m = re.search(r'false when calling (\w+\(.*\))', out)
+        if m:
+            call = m.group(1)
+            try:
+                ok = eval('contracts.' + call, {'contracts': contracts, 'inf': float('inf'), 'nan': float('nan')})
+            except Exception:
+                ok = True
+            env.observe('crosshair', 0)
+            return [('crosshair-counterexample %s' % call, A.bool(bool(ok)))]
+        env.observe('crosshair', -1)
+        return [('crosshair-no-claim', A.true)]
+    return body
+
+
 STATEFUL = [('prev', X), ('s_prev', X), ('once', X), ('historically', X), ('rise', X), ('fall', X),
             ('once_t', X, 0, 1), ('once_t', X, 1, 2), ('historically_t', X, 1, 2), ('since', X, Y), ('since_t', X, Y, 0, 1)]
 
@@ -141,6 +180,9 @@ def obligations(tier, rng):
         f = refsem.gen_formula(rng, rng.choice([3, 4]), PAST_OPS, [(0, 1), (1, 2), (0, 2)], ('x', 'y'))
         N = rng.choice([3, 5, 6])
         out.append(ob('C02', 'online', 'F3/%d/%s/N=%d' % (i, text(f), N), f=f, N=N, ext=False))
+    if not quick:
+        for fn in ('once_0_2', 'historically_1_2', 'since_0_1', 'since_unbounded', 'precedes_0_1', 'rise_op', 'unit_transformer'):
+            out.append(ob('C02', 'crosshair', 'crosshair/%s' % fn, fn=fn, validate=0, wall=900))
     for op in ('once', 'historically', 'since', 'precedes'):
         for end in range(0, 4 if quick else 7):
             for begin in range(0, end + 1):
